@@ -279,12 +279,31 @@ def run(ctx):
     FORBIDDEN = ("raw_ready_operations", "available_operations", "current_time", "available_machines", "available_jobs")
     for key, fi in sorted(all_filters.items(), key=lambda kv: kv[1].qualname):
         hit = None
-        for f, _rc, _via in ctx.effects.closure(fi, fi.cls, max_depth=3):
-            if f.cls is not None:
-                continue  # dispatcher methods themselves are not filter code
+        # filter code = the filter, its helper functions, and whatever API the
+        # pinned tree does not have (a query added for the filter's benefit);
+        # the pinned dispatcher methods themselves are not filter code
+        from ..baseline_api import PUBLIC_CALLABLES
+
+        seen, work = set(), [(fi, fi.cls, 0)]
+        while work:
+            f, rc, d = work.pop(0)
+            if f.qualname in seen or isinstance(f.node, ast.Lambda) and f.parent is None:
+                continue
+            seen.add(f.qualname)
             for n in own_nodes(f.node):
                 if isinstance(n, ast.Call) and isinstance(n.func, ast.Attribute) and n.func.attr in FORBIDDEN and hit is None:
                     hit = (f, n)
+            if d >= 3:
+                continue
+            for ev, t, trc in ctx.effects.calls(f, rc):
+                if t.cls is not None:
+                    k = f"{t.cls.name}.{t.name}"
+                    pinned = k in PUBLIC_CALLABLES or t.name.startswith("__") or (
+                        t.name.startswith("_") and f.cls is None  # a private method called from outside its class: not ours to judge
+                    ) or any(f"{b.rsplit('.', 1)[-1]}.{t.name}" in PUBLIC_CALLABLES for b in t.cls.mro[1:])
+                    if pinned:
+                        continue
+                work.append((t, trc, d + 1))
         if hit is None:
             chk.ok("R07.g", fi.qualname, fi.loc(), "uses only its `operations` argument and the dispatcher's tracking state")
         else:
